@@ -141,6 +141,19 @@ CHECKS["C18"] = dict(
     modelled="config.Load checks and key substitution, NewHandler/InitStore/initOIDC/keytab fatal paths (hand transcription); koanf, "
              "mapstructure, yaml, env mapping and TLS setup are exercised only.")
 
+CHECKS["C13"] = dict(
+    text="State-machine model of the login (state cache, callback sequence, sessions) with the IdP's answers attached to each "
+         "callback. Theorem over every history of /connect and /callback requests on any number of browser sessions: a session "
+         "is authenticated with name u only if u is non-empty and an earlier callback of that session carried a state this "
+         "gateway issued to a /connect request less than 120 s before, the code was exchanged, the ID token verified and its "
+         "user-name claim is u (two invariants over reachable states); a callback completes a login iff all steps succeed; a "
+         "failing callback changes no session; only authenticated sessions get a file. The regenerated source facts (return "
+         "after the missing-claim error, 120 s) are pinned. The real binary runs with both session stores on every failure "
+         "point x session state, random histories, every-k-th-position cookie mutations, identity gob round trips.",
+    design="7/C13", technique="Coq proof (history invariants of a state machine) + real-binary correspondence",
+    modelled="OIDC.Authenticated/HandleCallback/state cache/session identity (hand-written state machine); oauth2, go-oidc, gorilla "
+             "sessions/securecookie, gob are assumed and exercised only.")
+
 NOT_YET = {}
 
 
